@@ -29,9 +29,22 @@ def add_tight_links(rng, spec):
         idx = len(spec)
         mode = rng.choice(["cached", "cached", "transient"])
         wrap = f"v{idx}" if rng.random() < 0.4 else None
-        spec.append({"k": "calc", "name": f"n{idx}", "fn": "lin", "coef": [round(rng.uniform(-2, 2), 3), round(slope, 3)],
-                     "inputs": [{"i": p, "via": "var"}], "mode": mode, "wrap": wrap, "vk": "real",
-                     "shape": spec[p].get("shape", []), "seeded": False})
+        if rng.random() < 0.25:
+            # the dependency runs through an InputGroup (as the inputs of class/default
+            # bijector transforms do): parent -> InputGroup -> Calc -> child's loc
+            spec.append({"k": "igroup", "name": f"n{idx}", "inputs": [{"i": p, "via": rng.choice(["var", "node"])}] if rng.random() < 0.5 else [],
+                         "kw": {}, "vk": None})
+            if not spec[-1]["inputs"]:
+                spec[-1]["kw"] = {"k0": {"i": p, "via": rng.choice(["var", "node"])}}
+            idx = len(spec)
+            spec.append({"k": "calc", "name": f"n{idx}g", "fn": "group_lin", "coef": [round(rng.uniform(-0.3, 0.3), 3), round(rng.choice([-1, 1]) * rng.uniform(0.2, 0.6), 3)],
+                         "inputs": [{"i": idx - 1, "via": "node"}], "mode": mode, "wrap": None, "vk": "real",
+                         "shape": spec[p].get("shape", []), "seeded": False})
+            wrap = None
+        else:
+            spec.append({"k": "calc", "name": f"n{idx}", "fn": "lin", "coef": [round(rng.uniform(-2, 2), 3), round(slope, 3)],
+                         "inputs": [{"i": p, "via": "var"}], "mode": mode, "wrap": wrap, "vk": "real",
+                         "shape": spec[p].get("shape", []), "seeded": False})
         via = "var" if wrap and rng.random() < 0.6 else "node"
         mid = idx
         if rng.random() < 0.35:
@@ -43,6 +56,18 @@ def add_tight_links(rng, spec):
             mid, via = idx2, "node"
         cidx = len(spec)
         shape = spec[p].get("shape", []) if rng.random() < 0.6 else ([3] if rng.random() < 0.5 else spec[p].get("shape", []))
+        if rng.random() < 0.25:
+            # the child is a transformed variable: x ~ LogNormal(loc, 1e-3) with the default (Exp)
+            # bijector, so that the new variable t = log x ~ Normal(loc, 1e-3) and its
+            # distribution node gets loc through builder-made InputGroups
+            spec.append({"k": "var", "name": f"v{cidx}", "val": M.draw_value(rng, "pos", shape), "vk": "pos", "shape": shape,
+                         "role": rng.choice(["param", None]),
+                         "dist": {"fam": "lognormal", "args": {"loc": {"i": mid, "via": via}, "scale": {"c": TIGHT}},
+                                  "transient": False, "per_obs": True},
+                         "transform": {"how": rng.choice(["default", "auto"]), "bij": None, "arg": None},
+                         "tight": {"parent": p, "mid": mid}})
+            links.append(cidx)
+            continue
         spec.append({"k": "var", "name": f"v{cidx}", "val": M.draw_value(rng, "real", shape), "vk": "real", "shape": shape,
                      "role": rng.choice(["obs", "param", None]),
                      "dist": {"fam": "normal", "args": {"loc": {"i": mid, "via": via}, "scale": {"c": TIGHT}},
@@ -66,7 +91,7 @@ def add_tight_links(rng, spec):
 def gen_plan(rng, tier: str, idx: int) -> dict:
     spec = M.gen_spec(rng, n_items=(3, 10), p_dist=0.8, allow_bare=False, families=[f for f in M.FAMILIES if f != "uniform_lw"], weak_dist_p=0.0)
     add_tight_links(rng, spec)
-    dvars = [it["name"] for it in spec if it["k"] == "var" and it.get("dist")]
+    dvars = [it["name"] for it in spec if it["k"] == "var" and it.get("dist") and not it.get("transform")]
     skip = []
     for v in dvars:
         if rng.random() < 0.2:
@@ -127,9 +152,22 @@ def inputs_of(model, spec):
     for it in spec:
         if it["k"] == "value":
             out[it["name"]] = np.asarray(model.nodes[it["name"]].value)
+        elif it["k"] == "var" and it.get("transform"):
+            # the variable that simulate() draws is the new, unconstrained one
+            out[it["name"]] = np.asarray(model.vars[f"{it['name']}_transformed"].value)
         elif it["k"] == "var":
             out[it["name"]] = np.asarray(model.vars[it["name"]].value)
     return out
+
+
+def set_ref_inputs(ref, spec, get_value, get_var):
+    for it in spec:
+        if it["k"] == "value":
+            ref.inputs[it["name"]] = get_value(it["name"])
+        elif it["k"] == "var" and it.get("transform"):
+            ref.inputs[f"{it['name']}_transformed_value"] = get_var(it["name"], True)
+        elif it["k"] == "var":
+            ref.inputs[f"{it['name']}_value"] = get_var(it["name"], False)
 
 
 def do_sim(model, plan):
@@ -199,11 +237,7 @@ def execute(plan: dict) -> dict:
     # ancestral: tight children sit at the value implied by the *new* parent values
     for mdl, vals, label in ((mA, A, f"auto_update={plan['auto']}"), (mB, B, f"auto_update={not plan['auto']}")):
         ref = M.RefGraph(spec)
-        for it in spec:
-            if it["k"] == "value":
-                ref.inputs[it["name"]] = jnp.asarray(vals[it["name"]])
-            elif it["k"] == "var":
-                ref.inputs[f"{it['name']}_value"] = jnp.asarray(vals[it["name"]])
+        set_ref_inputs(ref, spec, lambda n: jnp.asarray(vals[n]), lambda n, tr: jnp.asarray(vals[n]))
         rv = ref.eval()
         for it in spec:
             if it["k"] == "var" and it.get("tight") and it["name"] not in skipped:
@@ -226,11 +260,8 @@ def execute(plan: dict) -> dict:
         except Exception as e:
             raise SutError(f"update-after-simulate|{type(e).__name__}|?|{e}") from e
         sim = M.ModelSim(spec, mdl, V, EventLog())
-        for it in spec:
-            if it["k"] == "value":
-                sim.ref.inputs[it["name"]] = mdl.nodes[it["name"]].value
-            elif it["k"] == "var":
-                sim.ref.inputs[f"{it['name']}_value"] = mdl.vars[it["name"]].value
+        set_ref_inputs(sim.ref, spec, lambda n: mdl.nodes[n].value,
+                       lambda n, tr: mdl.vars[f"{n}_transformed" if tr else n].value)
         sim.check_coherence("after-simulate-update:#0")
         od = sim.n_outdated()
         if od:
@@ -238,6 +269,8 @@ def execute(plan: dict) -> dict:
     counters["vars_drawn"] = n_drawn
     counters["probe.auto_update_off"] = 1  # both settings are exercised in every run
     counters["probe.tight_link_via_cached_calc"] = int(any(it.get("tight") and spec[it["tight"]["mid"]]["mode"] == "cached" for it in spec if it["k"] == "var"))
+    counters["probe.tight_link_via_input_group"] = int(any(it.get("tight") and spec[it["tight"]["mid"]].get("fn") == "group_lin" for it in spec if it["k"] == "var"))
+    counters["probe.tight_child_transformed"] = int(any(it.get("tight") and it.get("transform") for it in spec if it["k"] == "var"))
     counters["probe.vector_sample_shape"] = int(any(it["k"] == "var" and it.get("dist") and it.get("shape") == [3] for it in spec))
     return {
         "violations": V.items,
